@@ -197,7 +197,7 @@ def params_s(draw) -> dict[str, Any]:
     out: dict[str, Any] = {"p_session": p(), "p_service": p(), "p_sub_function": p(), "p_identifier": p(),
                            "p_correct_payload_format": p(), "p_dtc_status_mask": p()}
     # the default session is the root of every model wherever (and whether) the list names it
-    out["mandatory_sessions"] = draw(st.sampled_from([[1], [1, 2], [1, 3, 0x7E], [1, 2, 3, 4], [2, 1], [0x40, 3, 1], [3]]))
+    out["mandatory_sessions"] = draw(st.sampled_from([[1], [1, 2], [1, 3, 0x7E], [1, 2, 3, 4], [2, 1], [0x40, 3, 1], [3], [1, 2, 3, 2], [2, 3, 2]]))
     out["optional_sessions"] = draw(st.sampled_from([[], [2, 3, 4], [5, 0x40, 0x7E], list(range(2, 0x7F))]))
     out["mandatory_sessions"] = [s for s in out["mandatory_sessions"]]
     out["optional_sessions"] = [s for s in out["optional_sessions"] if s not in out["mandatory_sessions"]]
